@@ -1,5 +1,10 @@
 /-
-  Props/C11.lean — property theorems for C11 (stub; to be filled in).
+  Props/C11.lean — C11 (work in progress).
 -/
+import TypedpyModel.Sem.EqHash
 namespace Typedpy.C11
+open Typedpy
+
+theorem copy_id (x : Inst) : copyI x = x := rfl
+
 end Typedpy.C11
